@@ -246,12 +246,13 @@ def ref_minimizer(order, kmers, w):
 def _ref_similar(n, k, mat, thr):
     """ScoreThresholdRule from the property statement: total substitution score of the two k-mers >= threshold."""
     m = [int(x) for x in mat.split(",")]
+    dim = int(round(len(m) ** 0.5))      # the matrix alphabet may be larger than the base alphabet (n symbols)
 
     def digits(q):
         return [(q // n ** (k - 1 - j)) % n for j in range(k)]
 
     def sim(q1, q2):
-        return sum(m[a * n + b] for a, b in zip(digits(q1), digits(q2))) >= thr
+        return sum(m[a * dim + b] for a, b in zip(digits(q1), digits(q2))) >= thr
     return sim
 
 
@@ -441,9 +442,23 @@ def _run_ops(ops):
         return TablePermutation([int(x) for x in vals.split(",")] if vals != "_" else [])
 
     def mkrule(mat, thr):
-        n = st["n"]
-        m = np.array([int(x) for x in mat.split(",")], dtype=np.int32).reshape(n, n)
-        return align.ScoreThresholdRule(align.SubstitutionMatrix(st["base"], st["base"], m), int(thr))
+        vals = [int(x) for x in mat.split(",")]
+        dim = int(round(len(vals) ** 0.5))
+        m = np.array(vals, dtype=np.int32).reshape(dim, dim)
+        # the matrix alphabet may be larger than the base alphabet of the k-mers (it must extend it)
+        malph = st["base"] if dim == st["n"] else bseq.LetterAlphabet("ABCDEFGHIJKLMNOPQRSTUVWXYZ"[:dim])
+        return align.ScoreThresholdRule(align.SubstitutionMatrix(malph, malph, m), int(thr))
+
+    def mkqseq(codes, qa):
+        """query sequence over a prefix alphabet of another size or over foreign symbols"""
+        alph = bseq.LetterAlphabet("ZYXWVUTSRQPONMLK"[:8]) if qa == "f" else \
+            bseq.LetterAlphabet("ABCDEFGHIJKLMNOPQRSTUVWXYZ"[:int(qa[1:])])
+        code = L(np.array(codes, dtype=np.uint8))
+        if all(c < len(alph) for c in codes):
+            s = bseq.GeneralSequence(alph)
+            s.code = code
+            return s
+        return _Seq(alph, code)
 
     def add(t, bucketed):
         st["tables"].append((t, bucketed))
@@ -462,6 +477,12 @@ def _run_ops(ops):
     def one(op):
         w = op.split()
         c = w[0]
+        if c == "alpheq":
+            def mk(n, k, sp):
+                base = bseq.LetterAlphabet("ABCDEFGHIJKLMNOPQRSTUVWXYZ"[:int(n)])
+                return align.KmerAlphabet(base, int(k), None if sp == "-" else _parse_nats(sp))
+            a1, a2 = mk(*w[1:4]), mk(*w[4:7])
+            return "ok " + ("true" if a1 == a2 else "false") + " " + ("true" if a2 == a1 else "false")
         if c == "alph":
             n, k = int(w[1]), int(w[2])
             sp = None if w[3] == "-" else _parse_nats(w[3])
@@ -538,7 +559,7 @@ def _run_ops(ops):
                 return "no-table"
             cls = align.BucketKmerTable if ts[0][1] else align.KmerTable
             return add(cls.from_tables([t for t, _ in ts]), ts[0][1])
-        if c in ("pickle", "dump", "match", "matchsim", "matchsel", "count", "getkmers", "get"):
+        if c in ("pickle", "dump", "match", "matchq", "matchsim", "matchsel", "count", "getkmers", "get"):
             tb = tab(w[1])
             if tb is None:
                 return "no-table"
@@ -554,6 +575,9 @@ def _run_ops(ops):
             if c == "match":
                 mask = None if w[3] == "-" else boolarr(_parse_bits(w[3]))
                 return "ok " + _tuples(t.match(mkseq(_parse_nats(w[2])), ignore_mask=mask).tolist())
+            if c == "matchq":
+                mask = None if w[3] == "-" else boolarr(_parse_bits(w[3]))
+                return "ok " + _tuples(t.match(mkqseq(_parse_nats(w[2]), w[4]), ignore_mask=mask).tolist())
             if c == "matchsim":
                 mask = None if w[3] == "-" else boolarr(_parse_bits(w[3]))
                 return "ok " + _tuples(t.match(mkseq(_parse_nats(w[2])), similarity_rule=mkrule(w[4], w[5]),
@@ -678,7 +702,15 @@ def oracle(case):
         w = op.split()
         c = w[0]
         if got == "CRASH" or got.startswith("UNCAUGHT"):
-            v.append((f"C10/{c}/crash", f"op `{op}` crashed the interpreter ({got})"))
+            # the whole case ran in one child: find the first op whose prefix kills it
+            from common import sandbox
+            culprit = op
+            for n_ops in range(1, len(case["ops"]) + 1):
+                if sandbox.run_forked(_run_ops, case["ops"][:n_ops], timeout=120)[0] != "ok":
+                    culprit = case["ops"][n_ops - 1]
+                    break
+            v.append((f"C10/{culprit.split()[0]}/crash", f"op `{culprit}` crashed the interpreter ({got}); ops before it: "
+                      f"{case['ops'][:case['ops'].index(culprit)]}"))
             break
         if got.endswith(" |argument-modified"):
             v.append((f"C10/{c}/argument-modified",
@@ -686,6 +718,17 @@ def oracle(case):
                       f"code) was modified by the call"))
             got = got[:-len(" |argument-modified")]
         try:
+            if c == "alpheq":
+                def valid_a(k_, sp_):
+                    sp_ = None if sp_ == "-" else _parse_nats(sp_)
+                    return int(k_) >= 2 and (sp_ is None or (len(sp_) == int(k_) and len(set(sp_)) == int(k_)))
+                if valid_a(w[2], w[3]) and valid_a(w[5], w[6]):
+                    def norm(n_, k_, sp_):
+                        return (int(n_), int(k_), None if sp_ == "-" else tuple(sorted(_parse_nats(sp_))))
+                    e = "true" if norm(*w[1:4]) == norm(*w[4:7]) else "false"
+                    if got != f"ok {e} {e}":
+                        bad(op, "C10/alphabet-eq/mismatch", f"ok {e} {e}", got)
+                continue
             if c == "alph":
                 n, k = int(w[1]), int(w[2])
                 sp = None if w[3] == "-" else _parse_nats(w[3])
@@ -820,7 +863,7 @@ def oracle(case):
                 if got != f"ok {len(exp_items)}":
                     bad(op, f"C10/{c}/entry-count", f"ok {len(exp_items)}", got, tainted)
                 continue
-            if c in ("dump", "match", "matchsim", "matchsel", "count", "getkmers", "get", "matchtab", "matchtabsim", "eq"):
+            if c in ("dump", "match", "matchq", "matchsim", "matchsel", "count", "getkmers", "get", "matchtab", "matchtabsim", "eq"):
                 i = int(w[1])
                 if i >= len(tables):
                     continue
@@ -828,12 +871,14 @@ def oracle(case):
                 items, tainted = T["items"], T["tainted"]
                 if c == "dump":
                     exp = "ok " + _tuples(items)
-                elif c == "match":
+                elif c in ("match", "matchq"):
                     seq = _parse_nats(w[2])
                     mask = None if w[3] == "-" else _parse_bits(w[3])
                     try:
                         if len(seq) < k:
                             raise ValueError
+                        if c == "matchq" and (w[4] == "f" or int(w[4][1:]) > n):
+                            raise ValueError      # the table's alphabet does not extend the query's alphabet
                         qk = ref_kmers(n, k, sp, seq)
                         keep = ref_kmer_keep(k, sp, mask, len(seq))
                         exp = "ok " + _tuples((qi, r, p) for qi, (q, kp) in enumerate(zip(qk, keep)) if kp
@@ -896,7 +941,8 @@ def oracle(case):
                         continue
                     O = tables[j]
                     tainted = tainted or O["tainted"]
-                    if (T["nb"] is None) != (O["nb"] is None) or (T["nb"] is not None and min(T["nb"], size) != min(O["nb"], size)):
+                    if ((T["nb"] is None) != (O["nb"] is None) or T["alph"] != O["alph"]
+                            or (T["nb"] is not None and min(T["nb"], size) != min(O["nb"], size))):
                         exp = "ERR"
                     else:
                         exp = "ok " + _tuples((r2, p2, r1, p1) for (x2, r2, p2) in O["items"] for (x1, r1, p1) in items if x1 == x2)
@@ -1373,6 +1419,21 @@ def _matrix(rng, n):
     return ",".join(str(m[i][j]) for i in range(n) for j in range(n))
 
 
+def _matrix_ext(rng, n, extra):
+    """matrix over an alphabet of n + extra symbols extending the base alphabet; the extra symbols score high, so a
+    search that does not trim the matrix to the base alphabet produces k-mers outside the k-mer alphabet."""
+    dim = n + extra
+    m = [[0] * dim for _ in range(dim)]
+    for i in range(dim):
+        for j in range(i, dim):
+            if i >= n or j >= n:
+                v = rng.randint(2, 7)
+            else:
+                v = rng.randint(-4, 4) if i != j else rng.randint(0, 6)
+            m[i][j] = m[j][i] = v
+    return ",".join(str(m[i][j]) for i in range(dim) for j in range(dim))
+
+
 def _simmask_case(rng):
     """Similarity rule combined with ignore masks (query masks and reference masks), both table kinds."""
     n = rng.choice([2, 3, 4])
@@ -1386,7 +1447,7 @@ def _simmask_case(rng):
         ms = [None if rng.random() < 0.3 else _mask(rng, len(s)) for s in refs]
     ops.append(f"seqs {nb} - {_lists(refs)} {_masks(ms)}")
     ops.append("dump 0")
-    mat = _matrix(rng, n)
+    mat = _matrix(rng, n) if rng.random() < 0.6 else _matrix_ext(rng, n, rng.choice([1, 1, 2, 3]))
     for _ in range(rng.randint(1, 3)):
         thr = rng.choice([-20, -2, 0, 1, 2, 3, 4, 6, 9, 3 * k, 6 * k, 6 * k + 1])
         q = _seq(rng, n, k + rng.choice([0, 1, 2, 3, 5]), rng.random() < 0.5)
@@ -1484,8 +1545,36 @@ def _eq_case(rng):
             sp[-1] += 1
         ops.append(f"alph {n} {k} {_nats(sp)}")                     # same codes over another spacing model
         ops.append(f"kms {nb} - {_nats(ks)} -")
+        # tables over different k-mer alphabets (contiguous vs spaced, either order) must not be merged or joined
+        ops += ["merge 1,0", "merge 0,1", "matchtab 0 1", "matchtab 1 0",
+                f"alpheq {n} {k} - {n} {k} {_nats(sp)}", f"alpheq {n} {k} {_nats(sp)} {n} {k} -"]
     ops += ["eq 0 1", "eq 1 0", "eq 0 0"]
+    if rng.random() < 0.5:
+        a1 = (rng.choice([2, 3]), rng.choice([2, 3]), rng.choice(["-", "-", "0,2", "0,1,3", "1,2", "0,3"]))
+        a2 = (rng.choice([2, 3]), rng.choice([2, 3]), rng.choice(["-", "-", "0,2", "2,0", "0,1,3", "1,2"]))
+        ops.append("alpheq " + " ".join(map(str, a1 + a2)))
     return {"kind": "eq", "ops": ops}
+
+
+def _qalph_case(rng):
+    """Queries over another alphabet than the table's: smaller prefix alphabet (accepted), larger prefix alphabet or
+    foreign symbols (refused although every symbol code is in range), both table kinds, with and without mask."""
+    n = rng.choice([2, 3, 4])
+    k = rng.choice([2, 3])
+    nb = _nb(rng)
+    ref = _seq(rng, n, k + rng.choice([1, 2, 4, 6]), rng.random() < 0.5)
+    ops = [f"alph {n} {k} -", f"seqs {nb} - {_nats(ref)} -"]
+    for _ in range(rng.randint(2, 4)):
+        qa = rng.choice(["f", "f", f"p{n}", f"p{n + 1}", f"p{n + 3}", f"p{max(1, n - 1)}"])
+        hi = n if qa == "f" else min(n, int(qa[1:]))
+        start = rng.randrange(len(ref) - k + 1)
+        q = [c if c < hi else rng.randrange(hi) for c in ref[start:start + k + rng.choice([0, 1, 2])]]
+        if len(q) < k:
+            q = (q + ref)[:k]
+            q = [c if c < hi else 0 for c in q]
+        mask = _mask(rng, len(q)) if rng.random() < 0.3 else None
+        ops.append(f"matchq 0 {_nats(q)} {_bits(mask) if mask is not None else '-'} {qa}")
+    return {"kind": "qalph", "ops": ops}
 
 
 def _similarity_case(rng):
@@ -1519,6 +1608,8 @@ def cases(rng, tier):
         yield _mincode_boundary_case(rng)
     for _ in range(60 if tier == "quick" else 500):
         yield _eq_case(rng)
+    for _ in range(60 if tier == "quick" else 500):
+        yield _qalph_case(rng)
     for _ in range(12 if tier == "quick" else 60):
         arrs = [[rng.randrange(64) for _ in range(rng.randint(1, 4))] for _ in range(rng.randint(1, 3))]
         yield {"kind": "ctor-reject", "kmers": arrs, "bad": rng.randrange(len(arrs)), "how": rng.choice(["dtype", "readonly"]),
